@@ -123,6 +123,9 @@ def locate(func, loc):
         gs = [x for x in ast.walk(e) if isinstance(x, ast.GeneratorExp)]
         gs.sort(key=lambda x: (x.lineno, x.col_offset))
         return _nth(gs, 0, f"generator in assignment to `{loc[1]}`").elt, None
+    if kind == "body":
+        # the whole body of the function (used with result="Block"): statements, argument names without `self`
+        return func, [a.arg for a in func.args.args if a.arg != "self"]
     if kind == "whiletest":
         ws = [x for x in ast.walk(func) if isinstance(x, ast.While)]
         ws.sort(key=lambda x: (x.lineno, x.col_offset))
@@ -144,6 +147,46 @@ def locate(func, loc):
             if k.arg == kw:
                 return k.value, None
         raise ExtractError(f"keyword `{kw}` of `{name}` not found")
+    if kind == "comp_if":
+        # n-th comprehension (dict/list/set/generator) that has a condition; its k-th `if`
+        comps = [x for x in ast.walk(func) if isinstance(x, (ast.DictComp, ast.ListComp, ast.SetComp, ast.GeneratorExp)) and any(g.ifs for g in x.generators)]
+        comps.sort(key=lambda x: (x.lineno, x.col_offset))
+        c = _nth(comps, loc[1], "comprehension with a condition")
+        ifs = [i for g in c.generators for i in g.ifs]
+        return _nth(ifs, loc[2] if len(loc) > 2 else 0, "comprehension condition"), None
+    if kind == "subscript_store":
+        # n-th assignment `name[<key>] = ...`; returns the key expression
+        name, n = loc[1], loc[2] if len(loc) > 2 else 0
+        hits = [x for x in ast.walk(func) if isinstance(x, ast.Assign) and len(x.targets) == 1 and isinstance(x.targets[0], ast.Subscript) and ast.unparse(x.targets[0].value) == name]
+        hits.sort(key=lambda x: (x.lineno, x.col_offset))
+        return _nth(hits, n, f"assignment to `{name}[...]`").targets[0].slice, None
+    if kind == "range_arg":
+        # the single argument of `range(...)` iterated by the n-th for loop
+        fs = [x for x in ast.walk(func) if isinstance(x, ast.For)]
+        fs.sort(key=lambda x: (x.lineno, x.col_offset))
+        it = _nth(fs, loc[1], "for").iter
+        if not (isinstance(it, ast.Call) and ast.unparse(it.func) == "range" and len(it.args) == 1 and not it.keywords):
+            raise ExtractError(f"for #{loc[1]} does not iterate over range(<one argument>): `{ast.unparse(it)}`")
+        return it.args[0], None
+    if kind == "fstring_value":
+        # n-th f-string of the form f"<prefix>{expr}" ; returns expr
+        prefix, n = loc[1], loc[2]
+        js = [x for x in ast.walk(func) if isinstance(x, ast.JoinedStr) and len(x.values) == 2 and isinstance(x.values[0], ast.Constant)
+              and x.values[0].value == prefix and isinstance(x.values[1], ast.FormattedValue)]
+        js.sort(key=lambda x: (x.lineno, x.col_offset))
+        return _nth(js, n, f"f-string `{prefix}{{...}}`").values[1].value, None
+    if kind == "comp_elt":
+        # element expression of the n-th list comprehension / generator expression
+        gs = [x for x in ast.walk(func) if isinstance(x, (ast.GeneratorExp, ast.ListComp))]
+        gs.sort(key=lambda x: (x.lineno, x.col_offset))
+        return _nth(gs, loc[1], "comprehension").elt, None
+    if kind == "ifstmt_containing":
+        # the n-th `if` statement (the statement node itself) whose test contains the given text and is not an `elif` of such an if
+        ifs = [x for x in ast.walk(func) if isinstance(x, ast.If) and loc[1] in ast.unparse(x.test)]
+        elifs = {id(x.orelse[0]) for x in ifs if len(x.orelse) == 1 and isinstance(x.orelse[0], ast.If)}
+        ifs = [x for x in ifs if id(x) not in elifs]
+        ifs.sort(key=lambda x: (x.lineno, x.col_offset))
+        return _nth(ifs, loc[2] if len(loc) > 2 else 0, f"if statement containing `{loc[1]}`"), None
     raise ExtractError(f"unknown locator {loc}")
 
 
@@ -172,12 +215,16 @@ class Tr:
         self.bools = set(spec.get("bools", []))
         self.funs = spec.get("funs", {})  # python callee text -> (lean fun param name)
         self.opaque = spec.get("opaque", {})  # python subexpression text -> variable name
+        self.opaque_re = spec.get("opaque_re", [])  # [(regex matching the WHOLE subexpression text, variable name)]
         self.consts = spec.get("consts", {})  # python text -> lean text (e.g. enum members)
         self.vars = []  # in order of first appearance
         self.funparams = []
+        self.bound = set()  # names bound by `let` inside a Block kernel (not parameters)
 
     def var(self, text):
         name = self.rename.get(text, _san(text))
+        if name in self.bound:
+            return name
         if name not in self.vars:
             self.vars.append(name)
         return name
@@ -208,6 +255,11 @@ class Tr:
             return self.consts[t]
         if t in self.opaque:
             return self._typed_var(self.opaque[t])
+        for rx, nm in self.opaque_re:
+            if re.fullmatch(rx, t, flags=re.S):
+                if nm not in self.vars:
+                    self.vars.append(nm)
+                return self._typed_var(nm)
         if isinstance(e, ast.Constant):
             return self.lit(e.value)
         if isinstance(e, (ast.Name, ast.Attribute)):
@@ -238,6 +290,8 @@ class Tr:
                 if self.ty == "Int":
                     return f"({a} % {b})"
                 raise ExtractError("`%` on non-Int carrier")
+            if isinstance(e.op, ast.Pow) and isinstance(e.left, ast.Constant) and isinstance(e.right, ast.Constant) and isinstance(e.left.value, int) and isinstance(e.right.value, int) and 0 <= e.right.value < 64:
+                return self.lit(e.left.value ** e.right.value)
             if isinstance(e.op, ast.Pow):
                 if isinstance(e.right, ast.Constant) and e.right.value == 2:
                     return f"({a} * {a})"
@@ -250,8 +304,12 @@ class Tr:
             args = e.args
             if f in self.funs:
                 fn = self.funs[f]
+                if e.keywords:
+                    raise ExtractError(f"keyword arguments in call of `{f}`")
                 if fn not in self.funparams:
                     self.funparams.append(fn)
+                if not args:
+                    return fn
                 return "(" + fn + " " + " ".join(self.num(a) for a in args) + ")"
             if f == "max" and len(args) == 1 and isinstance(args[0], ast.BinOp) and isinstance(args[0].op, ast.Add) and isinstance(args[0].left, ast.List) and len(args[0].left.elts) == 1:
                 # max([a] + xs)  ==> fold of max over xs starting from a
@@ -280,13 +338,126 @@ class Tr:
                 if "rnd" not in self.funparams:
                     self.funparams.append("rnd")
                 return f"(rnd {self.num(args[0])})"
-            if f in ("float", "int", "jnp.array", "jnp.asarray", "onp.array") and len(args) == 1 and f != "int":
+            if f in ("float", "jnp.array", "jnp.asarray", "onp.array", "onp.int32", "jnp.int32", "onp.float32", "jnp.float32") and len(args) >= 1:
                 return self.num(args[0])
             if f in ("abs", "jnp.abs"):
                 x = self.num(args[0])
                 return f"(max {x} (-{x}))"
+            if f in ("jnp.square", "onp.square") and len(args) == 1:
+                x = self.num(args[0])
+                return f"({x} * {x})"
+            if f in ("jnp.zeros_like", "jnp.zeros", "onp.zeros_like", "onp.zeros") and len(args) >= 1:
+                return self.lit(0)
+            if f in ("jnp.ones_like", "jnp.ones", "onp.ones_like", "onp.ones") and len(args) >= 1:
+                return self.lit(1)
+            if f == "jax.lax.cond" and len(args) == 3 and not e.keywords:
+                # cond(pred, a, b) over values (or over names of argument-free local branches, extracted separately)
+                return f"(if {self.boolean(args[0])} then {self.num(args[1])} else {self.num(args[2])})"
             raise ExtractError(f"unsupported call `{f}`")
+        if isinstance(e, ast.Tuple) and len(e.elts) >= 2:
+            # (a, b, ...)  ==> a Lean tuple
+            return "(" + ", ".join(self.num(x) for x in e.elts) + ")"
+        if isinstance(e, ast.JoinedStr):
+            # f"{a}_{b}"  ==> the pair (a, b): identifiers built from a kind and a number are modelled as pairs
+            parts = []
+            for v in e.values:
+                if isinstance(v, ast.FormattedValue) and v.format_spec is None and v.conversion == -1:
+                    parts.append(self.num(v.value))
+                elif isinstance(v, ast.Constant) and v.value == "_":
+                    continue
+                else:
+                    raise ExtractError(f"unsupported f-string `{t}`")
+            if len(parts) < 2:
+                raise ExtractError(f"unsupported f-string `{t}`")
+            return "(" + ", ".join(parts) + ")"
         raise ExtractError(f"unsupported expression `{t}`")
+
+    def val(self, e):
+        """a value: a tuple of values or a numeric/abstract expression"""
+        if isinstance(e, ast.Tuple):
+            return "(" + ", ".join(self.val(x) for x in e.elts) + ")"
+        return self.num(e)
+
+    def _bind(self, pyname):
+        n = self.rename.get(pyname, _san(pyname))
+        self.bound.add(n)
+        return n
+
+    @staticmethod
+    def _assigned(stmts):
+        out = []
+        for s in stmts:
+            for x in ast.walk(s):
+                tg = []
+                if isinstance(x, ast.Assign):
+                    tg = x.targets
+                elif isinstance(x, (ast.AugAssign, ast.AnnAssign)):
+                    tg = [x.target]
+                for t in tg:
+                    for nm in t.elts if isinstance(t, ast.Tuple) else [t]:
+                        if isinstance(nm, ast.Name) and nm.id != "_" and nm.id not in out:
+                            out.append(nm.id)
+        return out
+
+    def block(self, stmts, final=None):
+        """Straight-line statements with `if` -> nested `let … ; …` / `if … then … else …` ending in the returned value.
+        Supported: docstrings, `pass`, `name = e`, `a, _ = e`, `name op= e`, `if`/`else` whose branches assign names, `return e`."""
+        if not stmts:
+            if final is None:
+                raise ExtractError("block ends without `return`")
+            return final()
+        s, rest = stmts[0], stmts[1:]
+        if isinstance(s, ast.Pass) or (isinstance(s, ast.Expr) and isinstance(s.value, ast.Constant) and isinstance(s.value.value, str)):
+            return self.block(rest, final)
+        if isinstance(s, ast.Return):
+            if s.value is None:
+                raise ExtractError("bare `return`")
+            return self.val(s.value)
+        if isinstance(s, (ast.Assign, ast.AugAssign, ast.AnnAssign)):
+            if isinstance(s, ast.Assign):
+                if len(s.targets) != 1:
+                    raise ExtractError("chained assignment")
+                tgt, v = s.targets[0], self.val(s.value)
+            elif isinstance(s, ast.AugAssign):
+                tgt, v = s.target, self.num(ast.copy_location(ast.BinOp(left=s.target, op=s.op, right=s.value), s))
+            else:
+                if s.value is None:
+                    return self.block(rest, final)
+                tgt, v = s.target, self.val(s.value)
+            if isinstance(tgt, ast.Name):
+                n = self._bind(tgt.id)
+                return f"let {n} := {v}; {self.block(rest, final)}"
+            if isinstance(tgt, ast.Tuple) and all(isinstance(x, ast.Name) for x in tgt.elts):
+                k = len(tgt.elts)
+                out = f"let tup_ := {v}; "
+                for i, x in enumerate(tgt.elts):
+                    if x.id == "_":
+                        continue
+                    proj = "tup_" + ".2" * i + (".1" if i < k - 1 else "")
+                    out += f"let {self._bind(x.id)} := {proj}; "
+                return out + self.block(rest, final)
+            raise ExtractError(f"unsupported assignment target `{ast.unparse(tgt)}`")
+        if isinstance(s, ast.If):
+            test = self.boolean(s.test)
+            names = self._assigned(s.body + s.orelse)
+            if not names:
+                raise ExtractError("`if` without assignments")
+            if any(isinstance(x, ast.Return) for b in (s.body, s.orelse) for st in b for x in ast.walk(st)):
+                raise ExtractError("`return` inside `if`")
+
+            def fin():
+                refs = [self._typed_var(self.var(nm)) for nm in names]
+                return refs[0] if len(refs) == 1 else "(" + ", ".join(refs) + ")"
+
+            before = set(self.bound)
+            tb = self.block(s.body, fin)
+            self.bound = set(before)
+            eb = self.block(s.orelse, fin)
+            self.bound = set(before)
+            pats = [self._bind(nm) for nm in names]
+            pat = pats[0] if len(pats) == 1 else "(" + ", ".join(pats) + ")"
+            return f"let {pat} := (if {test} then ({tb}) else ({eb})); {self.block(rest, final)}"
+        raise ExtractError(f"unsupported statement `{ast.unparse(s)[:80]}`")
 
     def lst(self, e):
         """list-valued expression: names, attributes, reversal and window slices"""
@@ -295,6 +466,12 @@ class Tr:
             n = self.var(t)
             self.spec.setdefault("lists", set()).add(n)
             return n
+        if isinstance(e, ast.Call) and ast.unparse(e.func) in ("jax.lax.cummax", "lax.cummax") and len(e.args) == 1 and all(
+            k.arg == "axis" and isinstance(k.value, ast.Constant) and k.value.value == 0 for k in e.keywords
+        ):
+            # running maximum along the leading axis, written with core `List.scanl`
+            base = self.lst(e.args[0])
+            return f"(match {base} with | [] => [] | x :: r => List.scanl max x r)"
         if isinstance(e, ast.Subscript) and isinstance(e.slice, ast.Slice):
             sl = e.slice
             base = self.lst(e.value)
@@ -308,16 +485,28 @@ class Tr:
                 w = self.var(ast.unparse(sl.upper))
                 self.spec.setdefault("nats", set()).add(w)
                 return f"(List.take {w} {base})"
+        if isinstance(e, ast.Call) and ast.unparse(e.func) == "zip" and len(e.args) >= 2 and not e.keywords:
+            # zip(a, b, c)  ==> List.zip a (List.zip b c)   (truncates to the shortest, like Python)
+            parts = [self.lst(a) for a in e.args]
+            r = parts[-1]
+            for p in reversed(parts[:-1]):
+                r = f"(List.zip {p} {r})"
+            return r
         raise ExtractError(f"unsupported list expression `{t}`")
 
     def intexpr(self, e):
         """Int-valued expression over a non-Int carrier: int(a // b), int literals, int variables, conditionals"""
         if isinstance(e, ast.Constant) and isinstance(e.value, int):
             return f"({e.value} : Int)"
+        if isinstance(e, ast.UnaryOp) and isinstance(e.op, ast.USub) and isinstance(e.operand, ast.Constant) and isinstance(e.operand.value, int) and not isinstance(e.operand.value, bool):
+            return f"(-{e.operand.value} : Int)"
         if isinstance(e, ast.Name):
             n = self.var(e.id)
             self.ints.add(n)
             return n
+        if isinstance(e, ast.Call) and ast.unparse(e.func) in ("jnp.where", "onp.where", "jax.lax.select") and len(e.args) == 3:
+            # integer-valued selection whose condition may compare carrier (time) values
+            return f"(if {self.boolean(e.args[0])} then {self.intexpr(e.args[1])} else {self.intexpr(e.args[2])})"
         if isinstance(e, ast.IfExp):
             t = e.test
             if not (isinstance(t, ast.Compare) and len(t.ops) == 1):
@@ -403,6 +592,10 @@ class Tr:
             s = "(" + " || ".join(f"({x} == {it})" for it in items) + ")" if items else "false"
             self.spec.setdefault("enums", set()).add(x)
             return s if isinstance(op, ast.In) else f"(!{s})"
+        if isinstance(op, (ast.In, ast.NotIn)) and isinstance(r, (ast.Name, ast.Attribute)):
+            # membership in a named collection (dict keys / set / list), modelled as a list: declare its type with `types`
+            s = f"decide ({self.num(l)} ∈ {self.num(r)})"
+            return s if isinstance(op, ast.In) else f"(!{s})"
         a, b = self.num(l), self.num(r)
         if isinstance(op, ast.Lt):
             return f"decide ({a} < {b})"
@@ -428,11 +621,18 @@ def translate(spec, src_cache):
     text, tree = src_cache[path]
     func = _find_func(tree, spec["func"])
     expr, lam_args = locate(func, spec["loc"])
+    for step in spec.get("path", []):  # descend into the located expression: attribute names / indices of the ast
+        try:
+            expr = expr[step] if isinstance(step, int) else getattr(expr, step)
+        except (AttributeError, IndexError, TypeError):
+            raise ExtractError(f"path step `{step}` does not exist in `{ast.unparse(expr) if isinstance(expr, ast.AST) else expr}`")
+    if spec.get("path") and not isinstance(expr, ast.AST):
+        raise ExtractError("path does not end at an expression")
     tr = Tr(spec)
     if lam_args is not None and "params" not in spec:
         for a in lam_args:
             tr.var(a)
-    if spec.get("result") == "IntExpr":
+    if spec.get("result") in ("IntExpr", "IntSel"):
         body = tr.intexpr(expr)
     elif spec.get("result") == "IntOfFloor0":
         if not (isinstance(expr, ast.BinOp) and isinstance(expr.op, ast.FloorDiv)):
@@ -444,6 +644,12 @@ def translate(spec, src_cache):
         body = f"Rex.FloorDiv.fdiv {tr.num(expr.args[0].left)} {tr.num(expr.args[0].right)}"
     elif spec.get("result") == "List":
         body = tr.lst(expr)
+    elif spec.get("result") == "Block":
+        if not isinstance(expr, (ast.FunctionDef, ast.AsyncFunctionDef)):
+            raise ExtractError("Block kernels need the locator (\"body\",)")
+        body = tr.block(list(expr.body))
+    elif spec.get("result") == "Tuple":
+        body = tr.val(expr)
     else:
         body = tr.boolean(expr) if spec.get("result") == "Bool" else tr.num(expr)
     params = spec.get("params")
@@ -456,8 +662,12 @@ def translate(spec, src_cache):
     enums = spec.get("enums", set())
     enum_ty = spec.get("enum_ty", "Nat")
     ps = []
+    sigs = spec.get("sigs", {})  # function parameter -> Lean type (default: carrier → carrier)
+    types = spec.get("types", {})  # parameter -> Lean type (default: carrier)
     for fn in tr.funparams:
-        if fn == "isnan":
+        if fn in sigs:
+            ps.append(f"({fn} : {sigs[fn]})")
+        elif fn == "isnan":
             ps.append(f"(isnan : {tr.ty} → Bool)")
         else:
             ps.append(f"({fn} : {tr.ty} → {tr.ty})")
@@ -465,7 +675,9 @@ def translate(spec, src_cache):
     nats = spec.get("nats", set())
     elem = spec.get("elem", "β")
     for p in params:
-        if p in lists:
+        if p in types:
+            ps.append(f"({p} : {types[p]})")
+        elif p in lists:
             ps.append(f"({p} : List {elem if spec.get('result') == 'List' else tr.ty})")
         elif p in nats:
             ps.append(f"({p} : Nat)")
@@ -479,10 +691,19 @@ def translate(spec, src_cache):
             ps.append(f"({p} : {tr.ty})")
     if spec.get("result") in ("IntOfFloor", "IntOfFloor0", "IntExpr"):
         ps.insert(0, "[Rex.FloorDiv α]")
-    rty = "Int" if spec.get("result") in ("IntOfFloor", "IntOfFloor0", "IntExpr") else "Bool" if spec.get("result") == "Bool" else (f"List {elem}" if spec.get("result") == "List" else tr.ty)
+    rty = "Int" if spec.get("result") in ("IntOfFloor", "IntOfFloor0", "IntExpr", "IntSel") else "Bool" if spec.get("result") == "Bool" else (f"List {elem}" if spec.get("result") == "List" else tr.ty)
     if spec.get("result") == "List" and elem == "β":
         ps.insert(0, "{β : Type}")
-    src_txt = ast.unparse(expr)
+    if spec.get("rtype"):
+        rty = spec["rtype"]
+    if spec.get("tyvars"):
+        ps.insert(0, "{" + " ".join(spec["tyvars"]) + " : Type}")
+    if spec.get("binders"):  # extra binders after the type variables, e.g. "[DecidableEq κ]"
+        ps.insert(1 if spec.get("tyvars") else 0, spec["binders"])
+    if spec.get("result") == "Block":
+        src_txt = " ; ".join(ast.unparse(st) for st in expr.body if not (isinstance(st, ast.Expr) and isinstance(st.value, ast.Constant))).replace("\n", " ")
+    else:
+        src_txt = ast.unparse(expr)
     lean = f"/-- `{spec['file']}` `{spec['func']}` line {expr.lineno}: `{src_txt[:200]}` -/\n" f"def {spec['name']} {' '.join(ps)} : {rty} :=\n  {body}\n"
     return lean, src_txt, expr.lineno, ast.get_source_segment(text, func)
 
